@@ -12,6 +12,7 @@ import (
 	"net/url"
 	"os"
 	"path/filepath"
+	"runtime"
 	"sort"
 	"strings"
 	"sync"
@@ -769,21 +770,27 @@ func spec(c config, deadline time.Time) seqx.Spec {
 
 func main() {
 	replay := flag.String("replay", "", "replay file")
+	probe := flag.String("probe", "", "diagnostic (not part of the check): heartbeat-deadlock")
 	flag.Parse()
 	oxh.Quiet()
 	kv.VerifMemTableSize = 1 << 20
 	scratch = ev.Scratch("c14")
 	defer os.RemoveAll(scratch)
+	if *probe == "heartbeat-deadlock" {
+		code := probeHeartbeatDeadlock()
+		_ = os.RemoveAll(scratch)
+		os.Exit(code)
+	}
 	if *replay != "" {
 		code := doReplay(*replay)
 		_ = os.RemoveAll(scratch)
 		os.Exit(code)
 	}
 	run := ev.NewRun("C14", "model_checking")
-	cfgs := []config{{"abstract-state", false, 6}, {"exact-state", true, 3}}
+	cfgs := []config{{"abstract-state", false, 8}, {"exact-state", true, 4}}
 	budget := 50 * time.Second
 	if run.Tier == "thorough" {
-		cfgs = []config{{"abstract-state", false, 10}, {"exact-state", true, 5}}
+		cfgs = []config{{"abstract-state", false, 10}, {"exact-state", true, 6}}
 		budget = 17 * time.Minute
 	}
 	if d := os.Getenv("VERIF_DEPTH"); d != "" {
@@ -863,4 +870,35 @@ func doReplay(path string) int {
 	}
 	fmt.Println("replay passed")
 	return 0
+}
+
+// probeHeartbeatDeadlock is a diagnostic, not an oracle (it uses a wall-clock watchdog): it shows
+// the hang described in NOTES.md ("heartbeat deadlock"). Two heartbeats reach a session before its
+// goroutine has taken the session lock for the first time; with one P that is the schedule Go picks.
+//
+//	build/bin/c14 -probe heartbeat-deadlock
+func probeHeartbeatDeadlock() int {
+	runtime.GOMAXPROCS(1)
+	in := newInst(false, 0)
+	r, err := in.lc.CreateSession(&proto.CreateSessionRequest{Shard: shard, SessionTimeoutMs: 2000, ClientIdentity: "probe"})
+	if err != nil {
+		fmt.Println("create session:", err)
+		return 2
+	}
+	done := make(chan struct{})
+	go func() {
+		_ = in.lc.KeepAlive(r.SessionId)
+		_ = in.lc.KeepAlive(r.SessionId)
+		close(done)
+	}()
+	select {
+	case <-done:
+		fmt.Println("both heartbeats returned (no deadlock in this schedule)")
+		in.Close()
+		return 0
+	case <-time.After(6 * time.Second):
+		g, _ := server.VerifLeaderDB(in.lc).Get(&proto.GetRequest{Key: server.SessionKey(server.SessionId(r.SessionId))})
+		fmt.Printf("DEADLOCK: the second KeepAlive has not returned after 6 s (3x the session timeout); session record still stored: %v\n", g.Status == proto.Status_OK)
+		return 1 // the instance cannot be closed any more: Close would block on the session lock
+	}
 }
